@@ -43,8 +43,14 @@ static void image(void) {
 typedef struct { int k; unsigned char *v; size_t n; } went;
 static int wcmp(const void *a, const void *b) { return ((went *)a)->k - ((went *)b)->k; }
 
+/* fill a stretch of the stack below the current frame with a pattern, so that anything the library copies from
+   uninitialised automatic storage into the image shows up as a difference between two runs with different patterns */
+static void __attribute__((noinline)) paint_stack(int pat) { volatile unsigned char a[24576]; for (size_t i = 0; i < sizeof a; i++) a[i] = (unsigned char)pat; }
+static unsigned long long rawsum(void) { unsigned long long h = 1469598103934665603ULL; for (size_t i = 0; i < memsz; i++) { h ^= mem[i]; h *= 1099511628211ULL; } return h; }
+
 int main(void) {
     qv_install(); int dead = 0;
+    int paint = getenv("QV_PAINT") ? atoi(getenv("QV_PAINT")) : -1;
     attach_new(2);
     while (fgets(line, sizeof line, stdin)) {
         if (line[0] == '#' || line[0] == '\n') continue;
@@ -65,7 +71,16 @@ int main(void) {
             region = nr; mem = nm; t = qhasharr(mem, 0);
             continue;
         }
+        if (!strcmp(op, "tiny")) {          /* constructor on a region of n bytes ending at an inaccessible page */
+            size_t n = (size_t)atoi(a1); guard_t g = guard_alloc(n, 0); memset(g.p, 0xAA, n);
+            if (QV_TRY(3)) { qhasharr_t *h = qhasharr(g.p, n); QV_END;
+                if (h) { printf("ok %d\n", ((qhasharr_data_t *)g.p)->maxslots); qhasharr_free(h); } else printf("null\n"); }
+            else printf("%s\n", qv_sig == SIGALRM ? "TIMEOUT" : "CRASH");
+            guard_free(g); fflush(stdout); continue;
+        }
+        if (!strcmp(op, "raw")) { printf("raw %016llx\n", rawsum()); fflush(stdout); continue; }
         if (dead) { printf("DEAD\n"); continue; }
+        if (paint >= 0) paint_stack(paint);
         if (QV_TRY(10)) {
             if (!strcmp(op, "put")) {
                 int k = atoi(a1); size_t nv = unhex(a2, vbuf);
